@@ -50,6 +50,7 @@ pub struct Context {
     defs_ex_ex: Vec<Vec<String>>, // Used to contrust regex_set
     regexes: Vec<Vec<(Regex, String)>>,
     define_regex: Regex,
+    char_regex: Regex,
     pub literal_strings: Vec<String>,
     literal_strings_number: u32,
 }
@@ -67,6 +68,7 @@ impl Context {
             defs_ex_ex: Vec::new(), // Contains the string regexps that will be fed into regex_set
             regexes: Vec::new(),
             define_regex: Regex::new(r"([a-zA-Z_][a-zA-Z0-9_]*)(?:\(((?:(?:[a-zA-Z_][a-zA-Z0-9_]*)\s*,\s*)*(?:(?:[a-zA-Z_][a-zA-Z0-9_]*))*)\))?\s*(.*)").unwrap(),
+            char_regex: Regex::new(r"'(?:\\.|[^'\\])'").unwrap(),
             literal_strings: Vec::new(),
             literal_strings_number: 0
         };
@@ -152,7 +154,16 @@ impl Context {
     }
 
     pub fn replace_all(&self, s: &str) -> String {
-        let mut res = String::from(s);
+        // Character constants are no more subject to macro replacement than strings are:
+        // they are hidden while the macros are replaced
+        let mut chars = Vec::new();
+        let mut res = self
+            .char_regex
+            .replace_all(s, |c: &regex::Captures| {
+                chars.push(c[0].to_string());
+                format!("'\0{}\0'", chars.len() - 1)
+            })
+            .to_string();
         let mut changed;
         // A macro that (directly or not) refers to itself would be replaced for ever:
         // the number of rounds and the size of the result are bounded
@@ -177,6 +188,9 @@ impl Context {
             if !changed || rounds >= 100 || res.len() > 65536 {
                 break;
             }
+        }
+        for (i, c) in chars.iter().enumerate() {
+            res = res.replace(&format!("'\0{}\0'", i), c);
         }
         res
     }
